@@ -111,7 +111,10 @@ def check(ctx: Ctx) -> None:
             ctx.ob("C18.route", f"{text}:sanitize={sanitize}", outs == [("ret", want)],
                    f"extract_categorized_keys_from_tree({text}, sanitize={sanitize}) gives {outs}, expected {want} (each key once in ascending numeric order when sanitised)",
                    file="src/ahbicht/expressions/condition_expression_parser.py", function="extract_categorized_keys_from_tree")
-    for a, b in itertools.combinations(exprs[:5], 2):
+    single_kind = ["[UB1]", "[UB2] U [UB1]", "[7P]", "[501]", "[901]", "[1]"]  # summands with keys of one category only
+    pairs = list(itertools.combinations(exprs[:5], 2)) + [(a, b) for a in single_kind for b in ("[1] U [2]", "[UB3]", "[9P]") if a != b] + \
+        [(b, a) for a in single_kind[:3] for b in ("[1] U [2]",)]
+    for a, b in pairs:
         ea, eb = refsem.parse_condition(a), refsem.parse_condition(b)
 
         def run(ch, ea=ea, eb=eb):
